@@ -131,24 +131,35 @@ C14SameBytes(n, bv, bd) == Tri(bv.res.ok, bd.res.ok /\ bd.res.v = bv.res.v)
 \* C18  truncation localises: the error path names the members whose extent contains the cut.
 \* cs = <<parse of a canonical encoding (successful), parse of its prefix of length j>>
 RECURSIVE ChainAt(_, _, _, _, _)
-\* names of the Renamed nodes (outermost first) whose extent [pin, pout) in the successful behaviour contains j
+\* names of the Renamed nodes (outermost first) whose extent [pin, pout) in the successful behaviour contains j.
+\* Members of a region with coordinates of its own (bit-level and transformed regions) are not placed: their positions are
+\* not offsets of the root stream.  Result entries: [nm, at]; an entry with nm = "" and at = 0 marks "j lies inside such a region".
+RelCoordKinds == {"Transformed", "Restreamed", "ProcessXor", "ProcessRotateLeft", "Compressed", "RestreamData"}
 ChainAt(ev, i, j, opens, acc) ==
     IF i > Len(ev) THEN acc
-    ELSE IF ev[i].e = "in" THEN ChainAt(ev, i + 1, j, Append(opens, [nm |-> ev[i].nm, p |-> ev[i].p, at |-> i]), acc)
-    ELSE LET o == opens[Len(opens)] IN
+    ELSE IF ev[i].e = "in" THEN
+        LET inrel == opens # <<>> /\ (opens[Len(opens)].rel \/ opens[Len(opens)].k \in RelCoordKinds) IN
+        ChainAt(ev, i + 1, j, Append(opens, [nm |-> ev[i].nm, k |-> ev[i].k, p |-> ev[i].p, at |-> i, rel |-> inrel]), acc)
+    ELSE LET o == opens[Len(opens)]
+             hit == ~o.rel /\ o.p <= j /\ j < ev[i].p IN
          ChainAt(ev, i + 1, j, SubSeq(opens, 1, Len(opens) - 1),
-                 IF o.nm # "" /\ o.p <= j /\ j < ev[i].p THEN Append(acc, [nm |-> o.nm, at |-> o.at]) ELSE acc)
+                 IF hit /\ o.nm # "" THEN Append(acc, [nm |-> o.nm, at |-> o.at])
+                 ELSE IF hit /\ o.k \in RelCoordKinds THEN Append(acc, [nm |-> "", at |-> 0])
+                 ELSE acc)
 SortByAt(xs) == SortSeq(xs, LAMBDA a, b : a.at < b.at)
 PreReading == {"Prefixed", "FixedSized", "Transformed", "Restreamed", "NullTerminated", "NullStripped", "ProcessXor",
                "ProcessRotateLeft", "OffsettedEnd", "Compressed", "Padded", "Aligned", "RawCopy", "Checksum"}
 IsPrefixSeq(a, b) == Len(a) <= Len(b) /\ SubSeq(b, 1, Len(a)) = a
 C18Trunc(n, full, cut) ==
     LET j == Len(cut.data)
-        chain == SortByAt(ChainAt(full.events, 1, j, <<>>, <<>>))
+        all == ChainAt(full.events, 1, j, <<>>, <<>>)
+        chain == SortByAt(SelectSeq(all, LAMBDA x : x.at # 0))
+        inrel == \E i \in 1..Len(all) : all[i].at = 0          \* the cut lies inside a bit-level / transformed region
         names == <<"(parsing)">> \o [i \in 1..Len(chain) |-> chain[i].nm]
     \* NullStripped removes trailing pad bytes of whatever is left: after a cut the member boundaries inside it move
     IN Tri(Sequential(n) /\ NoRecover(n) /\ ~AnyNode(n, {"NullStripped"}) /\ ~HasNonConsumingTerminator(n) /\ full.res.ok /\ ~cut.res.ok /\ IsConstructError(cut.res.err) /\ j < full.res.p,
-           /\ IsPrefixSeq(cut.res.path, names)
+           \* (inside such a region the members of the region may follow the placed names)
+           /\ (IsPrefixSeq(cut.res.path, names) \/ (inrel /\ IsPrefixSeq(names, cut.res.path)))
            /\ (~AnyNode(n, PreReading)) => cut.res.path = names)
 
 \* C10  bit-level packing: the built bytes are the big-endian integer made of the fields' two's-complement patterns.
